@@ -61,8 +61,11 @@ def main(argv):
         out['demo_patched_rc'] = rc1
         out['demo_patched_tail'] = o1[-500:]
         if '--no-tests' not in argv:
-            rct, ot = run([PY, '-m', 'pytest', '-q', '-p', 'no:cacheprovider',
-                           '--timeout=900', '--continue-on-collection-errors'],
+            # the suite binds the library's fixed default ports: a private network
+            # namespace keeps concurrent jobs from colliding on them
+            rct, ot = run(['unshare', '-n', '--', 'bash', '-c',
+                           'ip link set lo up; exec ' + PY + ' -m pytest -q -p no:cacheprovider '
+                           '--timeout=900 --continue-on-collection-errors'],
                           cwd=dst, env=env, timeout=1500)
             out['tests_tail'] = ot.strip().splitlines()[-1] if ot.strip() else ''
         cenv = dict(os.environ, VERIF_REPO=dst)
